@@ -25,6 +25,50 @@ ASSUMPTIONS = ['ndarray iteration order of a column view', 'base_to_prob table a
 MSA = 'merge_ska_array::MergeSkaArray'
 
 
+def pair_table(facts):
+    """variant_dist interpreted on every pair of symbols a table can hold (x 2 running constants): (#cases, [differing cells]).  Shared with
+    C15.use:variant_dist (the weights of an ambiguity code are uniform over its base set; N carries none)."""
+    I = Interp(facts, {'IntT': 'u64'})
+    letters = '-ACGTRYSWKMBDHVN'
+    SETS = {'A': 'A', 'C': 'C', 'G': 'G', 'T': 'T', 'R': 'AG', 'Y': 'CT', 'S': 'CG', 'W': 'AT', 'K': 'GT', 'M': 'AC',
+            'B': 'CGT', 'D': 'AGT', 'H': 'ACT', 'V': 'ACG'}
+    bad = []
+    n = 0
+
+    def prob(ch):
+        if ch in SETS:
+            return {b: 1.0 / len(SETS[ch]) for b in SETS[ch]}
+        return {}
+
+    def view(col):
+        cell = Cell(Agg('array', 0, [BV(8, ord(c)) for c in col]), 'col')
+        return RefV(Cell(RefV(cell, (), (0, len(col))), 'view'))
+    for a in letters:
+        for b in letters:
+            for c in (0.0, 3.0):
+                n += 1
+                r = I.call_fn(MSA + '::variant_dist', [view(a), view(b), c])
+                got = (r.fields[0], r.fields[1])
+                if a == '-' and b == '-':
+                    dist, mm, m = 0.0, 0.0, c
+                elif a == '-' or b == '-':
+                    dist, mm, m = 0.0, 1.0, c
+                else:
+                    pa, pb = prob(a), prob(b)
+                    ov = sum(pa[x] * pb.get(x, 0.0) for x in pa)
+                    dist, mm, m = 1.0 - ov, 0.0, c + 1.0
+                want = (dist, 0.0 if (m + mm) == 0.0 else mm / (m + mm))
+                if abs(got[0] - want[0]) > 1e-12 or abs(got[1] - want[1]) > 1e-12:
+                    bad.append((a, b, c, got, want))
+    # accumulation over several rows
+    r = I.call_fn(MSA + '::variant_dist', [view('AC-G-'), view('AT--C'), 2.0])
+    n += 1
+    want = (1.0, 2.0 / (2.0 + 2.0 + 2.0))
+    if abs(r.fields[0] - want[0]) > 1e-12 or abs(r.fields[1] - want[1]) > 1e-12:
+        bad.append(('AC-G-', 'AT--C', 2.0, (r.fields[0], r.fields[1]), want))
+    return n, bad
+
+
 def run(facts, chk, tier, only=None):
     from . import cli_e2e
     # the subcommand through ska::main() itself (argument parser replaced by a constructed Args value): hand-over of CLI values, width dispatch
@@ -111,48 +155,7 @@ def run(facts, chk, tier, only=None):
                                  % (r['fa'], r['on_fail'], '' if r['k2'] else '; and no frequency filter with the user min_freq dominates the distance call'),
                           construct=dict(function='generic_modes::distance', producer=r['producer'], distance_call=r['dist']))
 
-    # ---------------------------------------------------------------- pair table
-    def pair():
-        I = Interp(facts, {'IntT': 'u64'})
-        letters = '-ACGTRYSWKMBDHVN'
-        SETS = {'A': 'A', 'C': 'C', 'G': 'G', 'T': 'T', 'R': 'AG', 'Y': 'CT', 'S': 'CG', 'W': 'AT', 'K': 'GT', 'M': 'AC',
-                'B': 'CGT', 'D': 'AGT', 'H': 'ACT', 'V': 'ACG'}
-        bad = []
-        n = 0
-
-        def prob(ch):
-            if ch in SETS:
-                return {b: 1.0 / len(SETS[ch]) for b in SETS[ch]}
-            return {}
-
-        def view(col):
-            cell = Cell(Agg('array', 0, [BV(8, ord(c)) for c in col]), 'col')
-            return RefV(Cell(RefV(cell, (), (0, len(col))), 'view'))
-        for a in letters:
-            for b in letters:
-                for c in (0.0, 3.0):
-                    n += 1
-                    r = I.call_fn(MSA + '::variant_dist', [view(a), view(b), c])
-                    got = (r.fields[0], r.fields[1])
-                    if a == '-' and b == '-':
-                        dist, mm, m = 0.0, 0.0, c
-                    elif a == '-' or b == '-':
-                        dist, mm, m = 0.0, 1.0, c
-                    else:
-                        pa, pb = prob(a), prob(b)
-                        ov = sum(pa[x] * pb.get(x, 0.0) for x in pa)
-                        dist, mm, m = 1.0 - ov, 0.0, c + 1.0
-                    want = (dist, 0.0 if (m + mm) == 0.0 else mm / (m + mm))
-                    if abs(got[0] - want[0]) > 1e-12 or abs(got[1] - want[1]) > 1e-12:
-                        bad.append((a, b, c, got, want))
-        # accumulation over several rows
-        r = I.call_fn(MSA + '::variant_dist', [view('AC-G-'), view('AT--C'), 2.0])
-        n += 1
-        want = (1.0, 2.0 / (2.0 + 2.0 + 2.0))
-        if abs(r.fields[0] - want[0]) > 1e-12 or abs(r.fields[1] - want[1]) > 1e-12:
-            bad.append(('AC-G-', 'AT--C', 2.0, (r.fields[0], r.fields[1]), want))
-        return n, bad
-    r = chk.guard('C14.pair', 'C14.pair:variant_dist', pair)
+    r = chk.guard('C14.pair', 'C14.pair:variant_dist', lambda: pair_table(facts))
     if r is not None:
         n, bad = r
         if bad:
